@@ -102,16 +102,31 @@ func buildHost(tape *sim.Tape, bad bool) *c11Host {
 	if family == 3 {
 		// SVG host
 		h.MT = "image/svg+xml"
-		doc.WriteString("<svg xmlns=\"http://www.w3.org/2000/svg\">\n")
+		// the root element may name the default style type of the document (contentStyleType):
+		// style elements and attributes are then dispatched to that type
+		styleMT := "text/css"
+		switch tape.Draw(6) {
+		case 0:
+			doc.WriteString("<svg xmlns=\"http://www.w3.org/2000/svg\" contentStyleType=\"text/css\">\n")
+		case 1, 2:
+			styleMT = []string{"text/xsl", "text/x-custom-style-language"}[tape.Draw(2)]
+			doc.WriteString("<svg xmlns=\"http://www.w3.org/2000/svg\" width=\"5\" contentStyleType=\"" + styleMT + "\">\n")
+		default:
+			doc.WriteString("<svg xmlns=\"http://www.w3.org/2000/svg\">\n")
+		}
+		ctx := ""
+		if styleMT != "text/css" {
+			ctx = " contentStyleType"
+		}
 		n := 1 + tape.Draw(3)
 		for i := 0; i < n; i++ {
 			switch tape.Draw(3) {
 			case 0:
-				add("<style>", c11Slot{MT: "text/css", Payload: pick("text/css"), Ctx: "svg<style>"}, "</style>\n")
+				add("<style>", c11Slot{MT: styleMT, Payload: pick("text/css"), Ctx: "svg<style>" + ctx}, "</style>\n")
 			case 1:
-				add("<path d=\"M0 0\" style=\"", c11Slot{MT: "text/css", Inline: true, Payload: pick("css-decl"), Ctx: "svg style=", Attr: true}, "\"/>\n")
+				add("<path d=\"M0 0\" style=\"", c11Slot{MT: styleMT, Inline: true, Payload: pick("css-decl"), Ctx: "svg style=" + ctx, Attr: true}, "\"/>\n")
 			case 2:
-				add("<style><![CDATA[", c11Slot{MT: "text/css", Payload: pick("text/css"), Ctx: "svg<style>CDATA"}, "]]></style>\n")
+				add("<style><![CDATA[", c11Slot{MT: styleMT, Payload: pick("text/css"), Ctx: "svg<style>CDATA" + ctx}, "]]></style>\n")
 			}
 		}
 		doc.WriteString("</svg>")
@@ -169,8 +184,12 @@ func buildHost(tape *sim.Tape, bad bool) *c11Host {
 			}
 			pi := tape.Draw(3)
 			smt := []string{"application/javascript", "text/javascript", "application/javascript"}[pi]
-			add([]string{"<script>", "<script type=\"text/javascript\">", "<script type=\"application/javascript\">\n"}[pi],
-				c11Slot{MT: smt, Payload: pl, Ctx: "<script>"}, "</script>\n")
+			open := []string{"<script>", "<script type=\"text/javascript\">", "<script type=\"application/javascript\">\n"}[pi]
+			if a := tape.Draw(6); a < 3 {
+				// other attributes do not change what the content is
+				open = strings.Replace(open, "<script", []string{"<script src=\"lib.js\"", "<script async defer", "<script id=\"s1\" nonce=\"n0nce\" crossorigin"}[a], 1)
+			}
+			add(open, c11Slot{MT: smt, Payload: pl, Ctx: "<script>"}, "</script>\n")
 		case 1:
 			add("<script type=\"module\">", c11Slot{MT: "module", Payload: pick("module"), Ctx: "<script type=module>"}, "</script>\n")
 		case 2:
@@ -273,7 +292,8 @@ func c11Case(env *Env, tape *sim.Tape) *CaseOut {
 	out := &CaseOut{}
 	bad := tape.Draw(5) == 0
 	h := buildHost(tape, bad)
-	types := []string{"application/javascript", "text/javascript", "module", "application/ld+json", "text/template", "text/css", "image/svg+xml", "application/mathml+xml", "text/html"}
+	types := []string{"application/javascript", "text/javascript", "module", "application/ld+json", "text/template", "text/css", "image/svg+xml", "application/mathml+xml", "text/html",
+		"text/xsl", "text/x-custom-style-language"}
 	modes := map[string]int{}
 	swarm := tape.Draw(3) // 0: everything real; 1: mostly stubs; 2: mixed
 	for _, t := range types {
@@ -293,8 +313,10 @@ func c11Case(env *Env, tape *sim.Tape) *CaseOut {
 		}
 	}
 	modes["text/javascript"] = modes["application/javascript"]
-	if modes["text/template"] == mReal {
-		modes["text/template"] = mAbsent // there is no real minifier for it
+	for _, t := range []string{"text/template", "text/xsl", "text/x-custom-style-language"} {
+		if modes[t] == mReal {
+			modes[t] = mAbsent // there is no real minifier for it
+		}
 	}
 	// nested hosts must be real for the nesting to happen
 	for _, s := range h.Slots {
